@@ -5,6 +5,7 @@
 
 mod attrs;
 mod canon;
+mod det;
 mod eqv;
 mod gen;
 mod gperf;
@@ -30,6 +31,7 @@ fn main() {
         "strains" => strains::main(arg(&args, 2, 0), arg(&args, 3, 100), arg(&args, 4, 40)),
         "c04" | "c07" | "c08" | "c18" => eqv::main(cmd, arg(&args, 2, 0), arg(&args, 3, 100), arg(&args, 4, 40)),
         "attrs" => attrs::main(arg(&args, 2, 0), arg(&args, 3, 100), arg(&args, 4, 50)),
+        "bpm" | "det" => det::main(cmd, arg(&args, 2, 0), arg(&args, 3, 100), arg(&args, 4, 30)),
         "gperf" => gperf::main(arg(&args, 2, 0), arg(&args, 3, 100), arg(&args, 4, 40)),
         "grad" => grad::main(arg(&args, 2, 0), arg(&args, 3, 100), arg(&args, 4, 40)),
         _ => {
